@@ -26,6 +26,7 @@ PutC(c, t, it, cond, names, values, rvf) ==
   [op |-> "PutItem", c |-> c, t |-> t, item |-> it, cond |-> cond, names |-> names, values |-> values, rvf |-> rvf]
 Put(t, it) == PutC("c1", t, it, NoCond, <<>>, <<>>, FALSE)
 Get(t, k) == [op |-> "GetItem", c |-> "c1", t |-> t, key |-> k]
+GetP(t, k, proj) == [op |-> "GetItem", c |-> "c1", t |-> t, key |-> k, proj |-> proj]
 DelC(c, t, k, cond, names, values, old, rvf) ==
   [op |-> "DeleteItem", c |-> c, t |-> t, key |-> k, cond |-> cond, names |-> names, values |-> values, retold |-> old, rvf |-> rvf]
 Del(t, k, old) == DelC("c1", t, k, NoCond, <<>>, <<>>, old, FALSE)
